@@ -706,6 +706,58 @@ def interleaving_digest(sim):
     return tuple((a, b, s) for st, a, b, s in sim.switch_log if st >= m)
 
 
+LAST_RECORD = {}
+
+
+def sweep(execute, sc, cap=120, per_key=3):
+    """Single-pre-emption sweep of one scenario: the undisturbed run is recorded, then the scenario is executed once per
+    candidate change point (thread, site, n-th occurrence) in the focus files - all of them up to `cap`, in a seeded
+    order - each as an ordinary run with that one forced pre-emption.  A race that needs exactly one badly placed
+    switch is then found whenever the scenario can show it, instead of once in a few thousand samples.  The witness of a
+    failure is an ordinary scenario with "cps": [that change point]."""
+    from simlib.core import Outcome
+    base = dict(sc)
+    base["cps"] = []
+    base["_record"] = True
+    LAST_RECORD.clear()
+    first = execute(base)
+    agg = Outcome()
+    agg.digests = [(first.digest, first.nontrivial)]
+    agg.evals = max(1, first.evals)
+    agg.steps, agg.sim_time = first.steps, first.sim_time
+    agg.faults.update(first.faults)
+    agg.probes.update(first.probes)
+    agg.probes["single_preemption_sweeps"] += 1
+    if first.viol:
+        agg.viol, agg.witness = first.viol, (first.witness or dict(sc, cps=[]))
+    rec = dict(LAST_RECORD)
+    focus = rec.get("focus") or ()
+    by_key = {}
+    for step, tname, site, c in rec.get("sites") or ():
+        if step > (rec.get("marker") or 0) and isinstance(site, tuple) and (not focus or any(f in site[0] for f in focus)):
+            by_key.setdefault((tname, site), []).append(c)
+    cands = []
+    for (tname, site), occ in sorted(by_key.items(), key=repr):
+        for c in occ[:per_key]:
+            cands.append([tname, list(site), c])
+    random.Random(sc["sched"]["seed"] ^ 0x9E3779B9).shuffle(cands)
+    cands = cands[:cap]
+    for cp in cands:
+        one = dict(sc)
+        one["cps"] = [cp]
+        o = execute(one)
+        agg.evals += max(1, o.evals)
+        agg.steps += o.steps
+        agg.sim_time += o.sim_time
+        agg.faults.update(o.faults)
+        agg.probes.update(o.probes)
+        agg.digests.append((o.digest, o.nontrivial))
+        if o.viol and not agg.viol:
+            agg.viol, agg.witness = o.viol, (o.witness or one)
+    agg.info = dict(first.info or {}, swept_change_points=len(cands))
+    return agg
+
+
 def explore(sc, body_factory, out, **kw):
     """Dry run (records pre-emption sites) + the real run with k change points chosen by site-first
     sampling; a scenario that already carries "cps" (a replay) skips the dry run.
@@ -722,7 +774,9 @@ def explore(sc, body_factory, out, **kw):
             out.evals += 1
         else:
             cps = []
-    sim = run_sim(body_factory(), sched["seed"], cps, spurious_p=spurious, drift_p=drift, **kw)
+    sim = run_sim(body_factory(), sched["seed"], cps, record=bool(sc.get("_record")), spurious_p=spurious, drift_p=drift, **kw)
+    if sc.get("_record"):
+        LAST_RECORD.update(sites=sim.sites, marker=sim.marker, focus=focus)
     out.steps += sim.steps
     out.sim_time += max(0.0, sim.seconds())
     for k, v in sim.faults.items():
@@ -731,7 +785,11 @@ def explore(sc, body_factory, out, **kw):
     return sim, cps
 
 
-def gen_sched(rng, ks=(0, 1, 2, 2, 3, 3), spurious_p=0.0, drift_p=0.0):
-    return {"seed": rng.getrandbits(32), "k": rng.choice(ks),
-            "spurious": rng.choice([0.0, spurious_p]) if spurious_p else 0.0,
-            "drift": rng.choice([0.0, 0.0, drift_p]) if drift_p else 0.0}
+def gen_sched(rng, ks=(0, 1, 2, 2, 3, 3), spurious_p=0.0, drift_p=0.0, sweep_p=0.0):
+    d = {"seed": rng.getrandbits(32), "k": rng.choice(ks),
+         "spurious": rng.choice([0.0, spurious_p]) if spurious_p else 0.0,
+         "drift": rng.choice([0.0, 0.0, drift_p]) if drift_p else 0.0}
+    if sweep_p and rng.random() < sweep_p:
+        d["sweep"] = True  # this scenario gets a single-pre-emption sweep (th.sweep) instead of k sampled change points
+        d["spurious"] = d["drift"] = 0.0
+    return d
